@@ -490,3 +490,10 @@ func TrackerWF(t *SessionTracker) bool {
 //@   requires w != nil
 //@   callsite Conn.writeExpunge requires w.allowExpunge
 //@   ensures !w.allowExpunge ==> err != nil
+
+// ---------------------------------------------------------------------------
+// C02: a failing sub-key of NOT / OR is reported, never turned into success.
+
+//@ func readSearchKeyWithAtom(criteria *imap.SearchCriteria, dec *imapwire.Decoder, key string) (err error)
+//@   props C02:post
+//@   ensures __called("readSearchKey") && __failed("readSearchKey") ==> err != nil
